@@ -345,6 +345,7 @@ structure Eng where
   prev : Option (List (Nat × Bool)) := none      -- reg_refs of run_progs[-1]
   runIds : List Nat := []                        -- run_progs (ids of the programs run)
   samples : Option (List Rat) := none            -- self.samples (shots = 1: one row; `some []` = empty array)
+  measured : Nat → Option Val := fun _ => none   -- self._measured_vals.get(k): latest value per subsystem index
   mpos : Nat := 0
 
 def fresh (bk : BK) (opts : List (String × Int)) (mpos : Nat := 0) : Eng := { bk := bk, opts := opts, mpos := mpos }
@@ -357,17 +358,14 @@ def bindParams (names : List String) (free : String → Option Rat) :
     if names.contains k then bindParams names (fun f => if f = k then some v else free f) rest
     else .error .parameter
 
-/-- `for k, v in enumerate(self.samples): p.reg_refs[k].val = v` with one shot: the single row of
-samples (values of all measured modes of the previous segment, ascending mode order) is stored in
-`reg_refs[0]` -/
-def handOver (regs : List (Nat × Bool)) (samples : Option (List Rat)) (vals : Nat → Option Val) :
-    Except Err (Nat → Option Val) :=
-  match samples with
-  | none => .ok vals
-  | some [] => .ok vals
-  | some row =>
-    if regs.any (fun r => r.1 = 0) then .ok (fun m => if m = 0 then some row else vals m)
-    else .error .key
+/-- is `m` a key of `p.reg_refs`? -/
+def hasIdx (regs : List (Nat × Bool)) (m : Nat) : Bool := regs.any fun r => r.1 == m
+
+/-- `for k, r in p.reg_refs.items(): r.val = self._measured_vals.get(k)`: every RegRef of `p` receives
+the latest value the engine holds for its subsystem index (`None` if there is none) -/
+def handOver (regs : List (Nat × Bool)) (measured : Nat → Option Val) (vals : Nat → Option Val) :
+    Nat → Option Val :=
+  fun m => if hasIdx regs m then measured m else vals m
 
 def nonGaussPreps : List String := ["Bosonic", "Catstate", "DensityMatrix", "Fock", "GKP", "Ket"]
 
@@ -393,10 +391,7 @@ def initStep (e : Eng) (p : Prog) (vals : Nat → Option Val) : Except Err ((Nat
   match e.prev with
   | none => .ok (vals, [{ name := "begin_circuit", args := [[⟨(p.initN : Nat), 0⟩]], opts := e.opts }])
   | some prevRegs =>
-    if p.initRegs = prevRegs then
-      match handOver p.regs e.samples vals with
-      | .error err => .error err
-      | .ok v => .ok (v, [])
+    if p.initRegs = prevRegs then .ok (handOver p.regs e.measured vals, [])
     else .error .runtime
 
 /-- the body of the `for p in program` loop of `BaseEngine._run` for the program with id `i`:
@@ -415,8 +410,9 @@ def runOne (cp : Compiler) (progs : Nat → Prog) (outc : Nat → List Rat) (arg
         match runProgram e.bk free1 outc cpd.initN { vals := vals0, mpos := e.mpos } cpd.circuit with
         | .error err => .error err
         | .ok (st, t) =>
+          -- self._measured_vals = {k: r.val for k, r in p.reg_refs.items()}
           .ok ({ e with prev := some cpd.regs, runIds := e.runIds ++ [i], samples := some (st.samples.map (·.2)),
-                        mpos := st.mpos },
+                        measured := fun k => if hasIdx cpd.regs k then st.vals k else none, mpos := st.mpos },
                { vals := setAt w.vals i st.vals, free := setAt w.free i free1, locked := setAt w.locked i true },
                t0 ++ t)
 
@@ -446,7 +442,8 @@ def updOpts (old new : List (String × Int)) : List (String × Int) :=
 /-- `LocalEngine.reset(backend_options)` -/
 def reset (e : Eng) (w : World) (newOpts : List (String × Int)) : Eng × World × List Call :=
   let opts := updOpts e.opts newOpts
-  ({ bk := e.bk, opts := opts, prev := none, runIds := [], samples := none, mpos := e.mpos },
+  ({ bk := e.bk, opts := opts, prev := none, runIds := [], samples := none, measured := fun _ => none,
+     mpos := e.mpos },
    { w with vals := fun i => if e.runIds.contains i then (fun _ => none) else w.vals i },
    [{ name := "reset", opts := opts }])
 
